@@ -1,0 +1,8 @@
+//go:build verif
+
+package nfdc
+
+// VerifQueueLen returns the number of management commands not yet taken up.
+func (m *NfdMgmtThread) VerifQueueLen() int {
+	return len(m.channel)
+}
